@@ -130,23 +130,14 @@ example : ∃ db, builderExecute [([1], [7]), ([1], [8]), ([2], []), ([3], [9])]
 
 /-! ### batches -/
 
-/-- The statement one wants: any batch size, any `BatchNumParallel`, any execution order of the
-batches gives the spec's multimap. It is FALSE for the code as written (`batches_eq_spec_fails`):
-with `BatchNumParallel = 0` the compiler blocks for ever as soon as one batch is full. -/
-def batches_eq_spec : Prop :=
-  ∀ (perLine : List Pairs) (extra stream : Pairs) (batchSize batchNumParallel : Nat)
-    (order : List Pairs),
-    stream.Perm (perLine.flatten ++ extra) → SmallStream stream →
-    order.Perm (batches batchSize stream) →
-    ∃ db, compileBatches batchSize batchNumParallel stream order = .ok db ∧
-      ∀ k, ∃ vs, rdbGet db k = .ok vs ∧ vs.Perm (compileSpec perLine extra k)
-
-/-- … and it holds whenever `BatchNumParallel ≥ 1` or no batch ever fills up. -/
-theorem batches_eq_spec_partial (perLine : List Pairs) (extra stream : Pairs)
+/-- Any batch size, any `BatchNumParallel` (0 = unlimited), any execution order of the batches
+gives the spec's multimap. Before the repair of `compileBatches` ("fix: BatchNumParallel 0 …") this
+was false: with `BatchNumParallel = 0` the compiler blocked for ever as soon as one batch was full
+(the unbuffered limiter was sent to before any receiver existed). -/
+theorem batches_eq_spec (perLine : List Pairs) (extra stream : Pairs)
     (batchSize batchNumParallel : Nat) (order : List Pairs)
     (harr : stream.Perm (perLine.flatten ++ extra)) (hsmall : SmallStream stream)
-    (hord : order.Perm (batches batchSize stream))
-    (hpar : 1 ≤ batchNumParallel ∨ stream.length < batchSize) :
+    (hord : order.Perm (batches batchSize stream)) :
     ∃ db, compileBatches batchSize batchNumParallel stream order = .ok db ∧
       ∀ k, ∃ vs, rdbGet db k = .ok vs ∧ vs.Perm (compileSpec perLine extra k) := by
   have hflat : order.flatten.Perm stream := by
@@ -158,33 +149,19 @@ theorem batches_eq_spec_partial (perLine : List Pairs) (extra stream : Pairs)
   obtain ⟨db, h1, h2⟩ := runBatches_from order hs [] MultiMap.empty Props.C15.R_empty
   refine ⟨db, ?_, fun k => ⟨_, Props.C15.forEach_refines db _ h2 k, ?_⟩⟩
   · unfold compileBatches
-    rw [if_neg (by omega)]
     unfold runBatches
     rw [h1]
   · rw [get_addAll_empty]
     unfold compileSpec
     exact ((hflat.trans harr).filter _).map _
 
-theorem batches_hang (batchSize : Nat) (stream : Pairs) (order : List Pairs)
-    (h : batchSize ≤ stream.length) : compileBatches batchSize 0 stream order = .hang := by
-  unfold compileBatches
-  rw [if_pos ⟨rfl, h⟩]
-
-theorem batches_eq_spec_fails : ¬ batches_eq_spec := by
-  intro h
-  obtain ⟨db, hdb, _⟩ := h [[([1], [2])]] [] [([1], [2])] 1 0 [[([1], [2])]] (List.Perm.refl _)
-    (by intro p hp; simp at hp; subst hp; decide) (List.Perm.refl _)
-  rw [batches_hang 1 _ _ (by decide)] at hdb
-  cases hdb
-
 /-- non-vacuity: the hypotheses are satisfiable by a non-trivial run (3 records, 2 batches) -/
-example : ∃ db, compileBatches 2 3 [([1], [2]), ([1], [3]), ([0], [])]
+example : ∃ db, compileBatches 2 0 [([1], [2]), ([1], [3]), ([0], [])]
       (batches 2 [([1], [2]), ([1], [3]), ([0], [])]) = .ok db ∧
     ∀ k, ∃ vs, rdbGet db k = .ok vs ∧
       vs.Perm (compileSpec [[([1], [2]), ([1], [3])]] [([0], [])] k) :=
-  batches_eq_spec_partial [[([1], [2]), ([1], [3])]] [([0], [])] _ 2 3 _ (List.Perm.refl _)
+  batches_eq_spec [[([1], [2]), ([1], [3])]] [([0], [])] _ 2 0 _ (List.Perm.refl _)
     (by intro p hp; simp at hp; rcases hp with rfl | rfl | rfl <;> decide) (List.Perm.refl _)
-    (Or.inl (by decide))
 
 /-! ### CDB -/
 
@@ -216,7 +193,7 @@ theorem compile_error_iff (lines : List LineOut) (extra : Pairs) :
     (none ∈ lines →
       (∀ sorted minB maxN, compileBuilder lines sorted minB maxN = .fail) ∧
       (∀ stream, compileCdb lines stream = .fail) ∧
-      (∀ size par stream order arrived, 1 ≤ par →
+      (∀ size par stream order arrived,
         compileBatchesFull lines size par stream order arrived = .fail)) := by
   constructor
   · unfold Spec.compileResult
@@ -224,26 +201,25 @@ theorem compile_error_iff (lines : List LineOut) (extra : Pairs) :
     exact acceptAll_none_iff lines
   · intro h
     have hn := (acceptAll_none_iff lines).2 h
-    refine ⟨fun _ _ _ => ?_, fun _ => ?_, fun _ par _ _ _ hp => ?_⟩
+    refine ⟨fun _ _ _ => ?_, fun _ => ?_, fun _ _ _ _ _ => ?_⟩
     · unfold compileBuilder; rw [hn]
     · unfold compileCdb; rw [hn]
     · unfold compileBatchesFull; rw [hn]
-      rw [if_neg (by omega)]
 
 example : compileCdb [some [([1], [2])], none] [([1], [2])] = .fail := rfl
 
 /-! ### configuration independence -/
 
 /-- Corollary: for one data file (same codec output), every successful configuration — builder with
-any bucket parameters and any sort, batches of any size executed in any order (with
-`BatchNumParallel ≥ 1` or no full batch), CDB — and any worker interleaving (`s1 s2 s3` are three
+any bucket parameters and any sort, batches of any size and any `BatchNumParallel` executed in any
+order, CDB — and any worker interleaving (`s1 s2 s3` are three
 arbitrary arrival orders) yield the same map from key to multiset of values, namely the spec's. -/
 theorem compile_config_independent (perLine : List Pairs) (extra s1 s2 s3 sorted : Pairs)
     (minB maxN size par : Nat) (order : List Pairs)
     (ha1 : Arrival perLine extra s1) (ha2 : Arrival perLine extra s2) (ha3 : Arrival perLine extra s3)
     (hsm : SmallStream (perLine.flatten ++ extra)) (hne : extra ≠ [])
     (h1 : 1 ≤ minB) (h2 : 1 ≤ maxN) (hperm : sorted.Perm s1) (hsorted : KeySorted sorted)
-    (hord : order.Perm (batches size s2)) (hpar : 1 ≤ par ∨ s2.length < size) :
+    (hord : order.Perm (batches size s2)) :
     ∃ db1 db2, builderExecute sorted minB maxN = .ok db1 ∧
       compileBatches size par s2 order = .ok db2 ∧
       ∀ k, ∃ v1 v2, rdbGet db1 k = .ok v1 ∧ rdbGet db2 k = .ok v2 ∧
@@ -261,7 +237,7 @@ theorem compile_config_independent (perLine : List Pairs) (extra s1 s2 s3 sorted
     have : 0 < extra.length := List.length_pos_iff.2 hne
     omega
   obtain ⟨db1, e1, g1⟩ := builder_eq_spec perLine extra s1 sorted minB maxN h1 h2 p1 sm1 hperm hsorted hsne
-  obtain ⟨db2, e2, g2⟩ := batches_eq_spec_partial perLine extra s2 size par order p2 sm2 hord hpar
+  obtain ⟨db2, e2, g2⟩ := batches_eq_spec perLine extra s2 size par order p2 sm2 hord
   refine ⟨db1, db2, e1, e2, fun k => ?_⟩
   obtain ⟨v1, r1, q1⟩ := g1 k
   obtain ⟨v2, r2, q2⟩ := g2 k
